@@ -99,14 +99,23 @@ package ch
 //@ -- a broken stream)
 //@   ensures err != nil && c.reader.failed && !old(c.reader.failed) ==> err.timeoutIn == rdTmo(c.reader.in, c.reader.pos) [C08] {a-timed-out-packet-read-keeps-the-timeout-in-its-error-chain}
 
-//@ contract (c *Client) decode(v) (err) props(C03,C13)
-//@   requires c != nil && v != nil
+//@ -- every AwareDecoder of package proto turns a failed read into an error (that is C07's sweep,
+//@ -- function by function); the client's decode helper passes that on
+//@ interface proto.AwareDecoder.DecodeAware(v, r, version) (err)
+//@   requires r != nil
+//@   modifies all(v), all(r)
+//@   ensures r.failed && !old(r.failed) ==> err != nil
+//@ contract (c *Client) decode(v) (err) props(C03,C07,C13)
+//@   requires c != nil && v != nil && c.reader != nil
 //@   modifies all(v), all(c.reader)
+//@   ensures c.reader.failed && !old(c.reader.failed) ==> err != nil [C03,C07] {a-failed-read-is-an-error}
 
-//@ contract (c *Client) exception() (e, err) props(C03,C13)
-//@   requires c != nil
+//@ contract (c *Client) exception() (e, err) props(C03,C07,C13)
+//@   requires c != nil && c.reader != nil
 //@   modifies all(c.reader)
 //@   ensures err == nil ==> e != nil {exception-decoded}
+//@ -- a chain that could not be read completely is an error, never a shorter chain (C07)
+//@   ensures c.reader.failed && !old(c.reader.failed) ==> err != nil [C03,C07] {a-truncated-chain-is-an-error}
 //@ -- the whole chain is handed on: the first decoded exception becomes the head, every further one
 //@ -- (each announced by the Nested flag of its predecessor) one entry of Next, in order, nothing else
 //@   ensures [internal] err == nil ==> len(list) >= 1 && len(e.Next) == len(list) - 1 [C03] {one-entry-per-nested-cause}
@@ -114,7 +123,7 @@ package ch
 //@   ensures [internal] err == nil ==> forall j in 0..len(e.Next) :: e.Next[j].Code == list[1 + j].Code [C03] {causes-in-server-order}
 //@ loop 0 (list)
 //@   modifies all(c.reader)
-//@   invariant len(list) >= 0
+//@   invariant len(list) >= 0 && (c.reader.failed ==> old(c.reader.failed))
 //@ loop 1 (rangeindex)
 //@   modifies e.Next, contents(e.Next)
 //@   invariant -1 <= rangeindex && rangeindex < len(list) - 1
